@@ -35,9 +35,60 @@ BIN_PREC = {"OR": 1, "AND": 2, "=": 4, "<>": 4, "!=": 4, "<": 4, ">": 4, "<=": 4
 
 
 class Parser:
-    def __init__(self, text: str) -> None:
+    def __init__(self, text: str, let: bool = False) -> None:
         self.toks = tokenize(text)
         self.i = 0
+        self.let = let  # parse `(SELECT e FROM (SELECT e1 AS n1, …) AS a)` as a let-binding instead of an opaque subquery
+
+    def _binding_select(self) -> List[List[Tuple[str, "E"]]]:
+        """after `(`: SELECT item [, item …] [FROM ( <binding select> ) [[AS] alias]] `)` - a row source without a table: returns the
+        binding layers, innermost first.  item: <expr> AS name | name"""
+        self.eat("SELECT")
+        binds: List[Tuple[str, E]] = []
+        while True:
+            ex = self.expr(0)
+            if self.up() == "AS":
+                self.eat()
+                nm = self.eat().text.strip('"')
+            elif ex.kind == "ident":
+                nm = str(ex.val).strip('"')
+            else:
+                raise ParseError("select item without a name")
+            binds.append((nm, ex))
+            if self.peek() is not None and self.peek().text == ",":
+                self.eat()
+                continue
+            break
+        layers: List[List[Tuple[str, E]]] = []
+        if self.up() == "FROM":
+            self.eat()
+            self.eat("(")
+            layers = self._binding_select()
+            if self.up() == "AS":
+                self.eat()
+            if self.peek() is not None and self.peek().kind in ("ident", "qident") and self.peek().text != ")":
+                self.eat()
+        self.eat(")")
+        return layers + [binds]
+
+    def try_let(self) -> Optional[E]:
+        """at `SELECT` just after `(`: SELECT <expr> FROM ( <binding select> ) [[AS] alias] )"""
+        save = self.i
+        try:
+            self.eat("SELECT")
+            body = self.expr(0)
+            self.eat("FROM")
+            self.eat("(")
+            layers = self._binding_select()
+            if self.up() == "AS":
+                self.eat()
+            if self.peek() is not None and self.peek().kind in ("ident", "qident") and self.peek().text != ")":
+                self.eat()
+            self.eat(")")
+            return E("let", None, [body], extra=layers)
+        except (ParseError, IndexError):
+            self.i = save
+            return None
 
     def peek(self, k: int = 0) -> Optional[Tok]:
         return self.toks[self.i + k] if self.i + k < len(self.toks) else None
@@ -207,6 +258,10 @@ class Parser:
             return E("ph", t.text)
         if t.text == "(":
             if self.up() in ("SELECT", "WITH"):
+                if self.let and self.up() == "SELECT":
+                    got = self.try_let()
+                    if got is not None:
+                        return got
                 self.skip_balanced()
                 return E("opaque", "subquery")
             # lambda (a, b) -> expr
@@ -325,8 +380,8 @@ class Parser:
         raise ParseError(f"unexpected token {t.text!r}")
 
 
-def parse(text: str) -> E:
-    return Parser(text).parse()
+def parse(text: str, let: bool = False) -> E:
+    return Parser(text, let=let).parse()
 
 
 # ---- nullness abstract interpretation ---------------------------------------------------------------------
